@@ -63,6 +63,7 @@ type vxC16Case struct {
 	Policy   int         `json:"policy"` // 0 round robin, 1 token aware(rr), 2 dc aware, 3 token aware(dc aware), 4 rack aware
 	RejectIP []int       `json:"reject_ip,omitempty"`
 	RejectDC bool        `json:"reject_dc,omitempty"`
+	DisStatus bool       `json:"no_status_events,omitempty"` // ClusterConfig.Events.DisableNodeStatusEvents: UP/DOWN events are ignored, topology events still count
 	Steps    []vxC16Step `json:"steps"`
 }
 
@@ -1022,6 +1023,11 @@ func (w *vxC16World) doRefresh() error {
 // statusEvent hands one STATUS_CHANGE event for m (named by its node-to-node address) to the driver
 // and applies it to the model.
 func (w *vxC16World) statusEvent(m *vxC16Member, kind string) {
+	if w.c.DisStatus {
+		// status events are disabled: the driver ignores the frame
+		w.s.handleNodeEvent([]frame{&statusChangeEventFrame{change: kind, host: net.ParseIP(m.addr()).To4(), port: 9042}})
+		return
+	}
 	if kind == "DOWN" {
 		m.up, m.via = false, nil
 	} else if !m.up {
@@ -1451,6 +1457,9 @@ func (w *vxC16World) apply(st vxC16Step) (skipped bool, err error) {
 			}
 		}
 		pending := topo
+		if w.c.DisStatus {
+			order = nil // status events are ignored altogether
+		}
 		for _, ip := range order {
 			if !ringIPs[ip] {
 				if status[ip] == "UP" {
@@ -1699,6 +1708,9 @@ func (w *vxC16World) burst(evs []vxC16Ev) error {
 		}
 	}
 	pending := topo
+	if w.c.DisStatus {
+		order = nil // status events are ignored altogether
+	}
 	for _, ip := range order {
 		if !ringIPs[ip] {
 			if status[ip] == "UP" {
@@ -1803,6 +1815,7 @@ func vxC16DrawSlow(t *rapid.T) interface{} {
 		N0:     2 + vxC16Pick(t, "n0", 3, salt, 1000),
 		Policy: vxC16Pick(t, "policy", 5, salt, 1001),
 	}}
+	c.Base.DisStatus = vxC16Pick(t, "nostatus", 3, salt, 1005) == 0
 	nr := rapid.IntRange(1, 2).Draw(t, "rounds")
 	prepOps := []string{"add", "add", "remove", "move", "crash", "restart", "invalid"}
 	kinds := []string{"UP", "DOWN", "UP", "NEW_NODE", "REMOVED_NODE", "MOVED_NODE", "NEW_NODE"}
@@ -1893,6 +1906,7 @@ func vxC16Start(c *vxC16Case, k *vstats.Case) (*vxC16World, error) {
 	}
 	cfg := vxClusterConfig(w.cl, proto, func(cfg *ClusterConfig) {
 		cfg.PoolConfig.HostSelectionPolicy = vxC16Policy(c.Policy)
+		cfg.Events.DisableNodeStatusEvents = c.DisStatus
 		cfg.Dialer = w
 		if os.Getenv("VX_C16_DEBUG") != "" {
 			cfg.Logger = log.New(os.Stderr, "drv ", log.Lmicroseconds)
@@ -1964,6 +1978,9 @@ func vxC16RunOnce(c *vxC16Case, k *vstats.Case, label bool) error {
 			k.Class("cfg:host-filter")
 		}
 		k.Class("cfg:policy=" + strconv.Itoa(c.Policy))
+		if c.DisStatus {
+			k.Class("cfg:status-events-disabled")
+		}
 		switch {
 		case applied >= 8:
 			k.Class("applied>=8")
@@ -2093,6 +2110,7 @@ func vxC16Draw(t *rapid.T) interface{} {
 		}
 		c.RejectDC = rapid.Bool().Draw(t, "rejdc")
 	}
+	c.DisStatus = vxC16Pick(t, "nostatus", 5, salt, 1005) == 0
 	n := rapid.IntRange(5, 16).Draw(t, "nsteps")
 	for i := 0; i < n; i++ {
 		c.Steps = append(c.Steps, vxC16DrawStep(t, salt, i))
@@ -2104,7 +2122,7 @@ func vxC16Draw(t *rapid.T) interface{} {
 func TestVxC16History(t *testing.T) {
 	vx.Check(t, vx.Prop{
 		ID: "C16", Part: "TestVxC16History",
-		Rule: "history of 5..16 pre-drawn steps (add / remove / move / replace a node, a node reported under another node-to-node address with its client address kept (within one step: refresh, status event for the new address, back; or persisting over later steps), invalid and duplicate peers rows, heal, refresh, system.peers failure, batches of 1..4 status/topology events for known and unknown addresses, control-connection loss, node crash/restart, reconnect tick, query) over 1..4 initial nodes x 5 policies x optional host filter; steps that do not apply are skipped; non-trivial = a removal, address change, replacement or invalidation of a node happened after an addition and a later successful refresh reported it; distinct by the whole case",
+		Rule: "history of 5..16 pre-drawn steps (add / remove / move / replace a node, a node reported under another node-to-node address with its client address kept (within one step: refresh, status event for the new address, back; or persisting over later steps), invalid and duplicate peers rows, heal, refresh, system.peers failure, batches of 1..4 status/topology events for known and unknown addresses, control-connection loss, node crash/restart, reconnect tick, query) over 1..4 initial nodes x 5 policies x optional host filter x Events.DisableNodeStatusEvents; steps that do not apply are skipped; non-trivial = a removal, address change, replacement or invalidation of a node happened after an addition and a later successful refresh reported it; distinct by the whole case",
 		Draw: vxC16Draw,
 		New:  func() interface{} { return &vxC16Case{} },
 		Run:  vxC16Budget(vxC16Run),
